@@ -4,6 +4,6 @@ set -e
 sid=$1; shift
 d=$(mktemp -d /tmp/pyasn1-seedrules-XXXXXX)
 git -C /repo worktree add -q --detach $d/wt HEAD
-( cd $d/wt && git apply /verif/seeded/$sid/patch.diff ) || echo "PATCH DOES NOT APPLY"
+p=/verif/seeded/$sid/patch.diff; [ -f $p ] || p=/verif/benign/$sid/patch.diff; ( cd $d/wt && git apply $p ) || echo "PATCH DOES NOT APPLY"
 PYASN1_REPO=$d/wt /venv/bin/python /verif/tools/runrules.py "$@" 2>&1 | cut -c1-400 || true
 git -C /repo worktree remove --force $d/wt; rm -rf $d
